@@ -165,6 +165,28 @@ Proof. vm_compute. reflexivity. Qed.
 Definition dangling (cfg : config) (s : state) : Prop :=
   exists c ri p, rowp s c = true /\ rowfk s c ri = Some p /\ c_do (fwd (getrel cfg ri)) = true /\ rowp s p = false.
 
+(* a delete requested by Session.delete (through the delete cascade) is cancelled when the object is also a member
+   of the unflushed collection of another parent: it survives the flush, still listed in session.deleted, with its
+   foreign key pointing to the deleted delete-orphan parent *)
+Definition dangling_at (cfg : config) (s : state) (x : nat) : Prop :=
+  exists ri p, rowfk s x ri = Some p /\ c_do (fwd (getrel cfg ri)) = true /\ rowp s p = false.
+Definition wit_cfg2 : config :=
+  mkCfg [mkRel 0 1 all_do true no_casc; mkRel 0 1 (mkCasc true false false true true false) false no_casc]
+        (fun _ => false) (fun o => if Nat.ltb o 2 then 0 else 1) 3.
+
+Theorem flush_marked_deleted_refuted :
+  exists cfg s x,
+    poison s = false /\ marked s x = true /\ st s x = Persistent /\ snd (op_flush cfg s) = 0 /\
+    st (fst (op_flush cfg s)) x = Persistent /\ rowp (fst (op_flush cfg s)) x = true /\
+    marked (fst (op_flush cfg s)) x = true /\
+    (exists p ri, In x (h_added (hist_coll s p ri))) /\
+    dangling_at cfg (fst (op_flush cfg s)) x.
+Proof.
+  exists wit_cfg2, (run wit_cfg2 [OAdd 1; OAppend 1 0 2; OFlush; OAppend 0 1 2; ODelete 1; OAdd 0]), 2.
+  vm_compute. repeat split; auto. exists 0, 1. left. reflexivity.
+  exists 0, 1. repeat split; reflexivity.
+Qed.
+
 Theorem no_dangling_orphan_rows_refuted :
   exists cfg ops, poison (run cfg ops) = false /\ dangling cfg (run cfg ops).
 Proof.
